@@ -512,15 +512,23 @@ def arr_read(it, arr, idx, what="array"):
     if all(isinstance(arr.elems[i], int) and not isinstance(arr.elems[i], bool) for i in cand):
         return _table_lookup(it, idx, arr.elems, cand)
     # group identical elements
+    index = {}
     groups = []
     for i in cand:
         v = arr.elems[i]
-        for gp in groups:
-            if gp[0] is v or V.same_concrete(gp[0], v) or (isinstance(v, (SInt, SBV)) and isinstance(gp[0], type(v)) and gp[0].e.get_id() == v.e.get_id()):
-                gp[1].append(i)
-                break
+        if isinstance(v, (SInt, SBV)):
+            k = ("s", type(v), v.e.get_id())
+        elif isinstance(v, (int, bool, str, bytes, type(None))):
+            k = ("c", type(v), v)
         else:
-            groups.append((v, [i]))
+            k = ("o", id(v))
+        gp = index.get(k)
+        if gp is None:
+            gp = (v, [i])
+            index[k] = gp
+            groups.append(gp)
+        else:
+            gp[1].append(i)
     v = groups[-1][0]
     for x, idxs in reversed(groups[:-1]):
         v = merge(V.in_ranges(idx.e, idxs), x, v)
